@@ -167,6 +167,7 @@ type defineModel struct {
 	fToDesc, fDefine                       *ssa.Function
 	fWritable, fEnumerable, fConfigurable  *ssa.Function
 	kUndefined, kObject, kString, kBoolean int64
+	kNumber                                int64
 	valueFieldValue, valueFieldKind        int
 }
 
@@ -176,6 +177,12 @@ func (m *defineModel) mkValue(in *absInterp, atom string) aval {
 	switch {
 	case atom == "undefined":
 		v.f[m.valueFieldKind] = aInt(m.kUndefined)
+		return v
+	case strings.HasPrefix(atom, "n:"):
+		var n int64
+		fmt.Sscanf(atom, "n:%d", &n)
+		v.f[m.valueFieldKind] = aInt(m.kNumber)
+		v.f[m.valueFieldValue] = aIface{dyn: types.Typ[types.Int64], v: aInt(n)}
 		return v
 	case atom == "true" || atom == "false":
 		kind = m.kBoolean
@@ -203,6 +210,9 @@ func (m *defineModel) valueAtom(v aval) string {
 	if i, ok := s.f[m.valueFieldValue].(aIface); ok {
 		if a, ok := i.v.(aAtom); ok {
 			return a.name
+		}
+		if n, ok := i.v.(aInt); ok {
+			return fmt.Sprintf("n:%d", int64(n))
 		}
 	}
 	return fmt.Sprintf("?kind%d", k)
@@ -253,6 +263,8 @@ type defineWorld struct {
 	how              map[string]string
 	fProp, fExt, fRt int
 	decode           func(sp *storedProp) (pdState, string)
+	// convert runs toPropertyDescriptor on the descriptor shape d
+	convert func(d pdDesc) (desc aval, typeError bool, fail string)
 }
 
 var defineWorlds = map[*Ctx]*defineWorld{}
@@ -302,7 +314,7 @@ func ruleSpecDefineOwn(c *Ctx, r *R) {
 			return
 		}
 	}
-	kinds := map[string]*int64{"valueUndefined": &m.kUndefined, "valueObject": &m.kObject, "valueString": &m.kString, "valueBoolean": &m.kBoolean}
+	kinds := map[string]*int64{"valueUndefined": &m.kUndefined, "valueObject": &m.kObject, "valueString": &m.kString, "valueBoolean": &m.kBoolean, "valueNumber": &m.kNumber}
 	for name, p := range kinds {
 		cst, ok := c.Otto().Types.Scope().Lookup(name).(*types.Const)
 		if !ok {
@@ -658,7 +670,20 @@ func ruleSpecDefineOwn(c *Ctx, r *R) {
 		}
 	}
 	defineWorlds[c] = &defineWorld{m: m, in: in, hooks: hooks, states: states, how: how, fProp: fProp, fExt: fExt, fRt: fRt,
-		decode: func(sp *storedProp) (pdState, string) { return decode(in, sp) }}
+		decode: func(sp *storedProp) (pdState, string) { return decode(in, sp) },
+		convert: func(d pdDesc) (aval, bool, string) {
+			curDesc = d
+			ret, pan, fail := absRun(in, m.fToDesc, []aval{aAtom{"rt"}, m.mkValue(in, "DESC")})
+			switch {
+			case fail != "":
+				return nil, false, fail
+			case pan != nil && isTypeErrorPanic(pan):
+				return nil, true, ""
+			case pan != nil:
+				return nil, false, "toPropertyDescriptor panics: " + describeAval(pan)
+			}
+			return ret, false, ""
+		}}
 	r.ok("state-graph", "-", fmt.Sprintf("%d stored representations of one property reachable from absent; %d (state, extensible, descriptor) edges evaluated", len(states), edges))
 	if edges < 3000 {
 		r.undecided("coverage", "-", fmt.Sprintf("UNDECIDED: only %d edges evaluated", edges))
